@@ -650,8 +650,9 @@ def write_evidence(pid, tier, seed, names, results, wall, violations=0, known=()
     }
     if note:
         ev["coverage"]["note"] = note
-    os.makedirs(os.path.join(VERIF, "evidence"), exist_ok=True)
-    json.dump(ev, open(os.path.join(VERIF, "evidence", pid + ".json"), "w"), indent=1)
+    edir = os.environ.get("VERIF_EVIDENCE_DIR", os.path.join(VERIF, "evidence"))  # developer override for dry runs
+    os.makedirs(edir, exist_ok=True)
+    json.dump(ev, open(os.path.join(edir, pid + ".json"), "w"), indent=1)
 
 
 def main():
